@@ -744,6 +744,11 @@ states.truncate(states.len() - {num_fields});
 
     fn get_quasiterminal_kind_from_terminal_match_arms_src(&self) -> String {
         let terminal_enum_name = &self.terminal_enum_name;
+        if self.file.terminal_enum.variants.is_empty() {
+            // Rust rejects an empty `match` on a reference,
+            // even if the referent is an empty enum.
+            return "_ => match *terminal {},".to_owned();
+        }
         self.file
             .terminal_enum
             .variants
